@@ -160,8 +160,16 @@ func c04Fluent(r *rand.Rand, idx int, docs []map[string]any) Case {
 	var got any
 	pn := guard(func() {
 		h := fluent.NewConfigHelper[map[string]any]()
-		for _, d := range docs[:len(docs)-1] {
-			h.Add(deepCopy(d))
+		for i, d := range docs[:len(docs)-1] {
+			// a source is a plain map, a document under construction, or its read-only view
+			switch (idx + i) % 3 {
+			case 0:
+				h.Add(deepCopy(d))
+			case 1:
+				h.Add(dom.Builder().FromMap(deepCopy(d).(map[string]any)))
+			default:
+				h.Add(dom.Builder().FromMap(deepCopy(d).(map[string]any)).Seal())
+			}
 		}
 		// last document through a file
 		fluent.NewConfigHelper[map[string]any]().Add(deepCopy(docs[len(docs)-1])).Save(file)
